@@ -66,7 +66,7 @@ type listStream struct {
 	items []*v1alpha1.ListResponse
 }
 
-func (l *listStream) Context() context.Context             { return l.ctx }
+func (l *listStream) Context() context.Context            { return l.ctx }
 func (l *listStream) Send(m *v1alpha1.ListResponse) error { l.items = append(l.items, m); return nil }
 
 type listClient struct {
